@@ -16,7 +16,7 @@ def _conc(*xs):
 
 
 def str_method(models, ex, obj, name, args, kwargs, st, node):
-    if _conc(obj, args, kwargs) and not any(hasattr(a, "__pyvc_eq__") for a in args):
+    if _conc(obj, args, kwargs) and not any(hasattr(a, "__pyvc_eq__") or hasattr(a, "__pyvc_symbolic_iter__") for a in args):
         try:
             r = getattr(obj, name)(*args, **kwargs)
         except Exception as e:
@@ -72,6 +72,8 @@ def str_method(models, ex, obj, name, args, kwargs, st, node):
         return [Val(SInt(z3.IndexOf(s, sub, start)), st)]
     if name == "count" and isinstance(args[0], str) and len(args[0]) == 1:
         ex.unsupported(node, "str.count symbolic")
+    if name == "join" and (isinstance(args[0], SSeq) or hasattr(args[0], "__pyvc_symbolic_iter__")):
+        return [Val(V.sstr(fresh_name("joined")), st)]  # text of a symbolic list: not tracked (only feeds messages)
     if name == "join":
         items = models.iter_concrete(ex, args[0], node)
         acc = None
